@@ -275,6 +275,21 @@ def cheap_geometry(d):
     r = d[len(d) - 128:]
     return r[96] + 256 * r[97] <= 2000 and r[98] + 256 * r[99] <= 1000
 
+# what the reader must answer on the regression inputs: ('some', header_len, ncomments) | ('err', class)
+REGRESSION_EXPECT = {'sauce-only': ('some', 128, 0), 'comment-block-and-record-only': ('some', 197, 1), 'eof-and-record': ('some', 129, 0),
+                     'one-byte-content': ('some', 129, 0), 'count-without-room': ('err', 'comment-block'), 'count-255-short': ('err', 'comment-block')}
+
+def check_regression(lbl, r):
+    want = REGRESSION_EXPECT.get(lbl)
+    if want is None or r[0] not in ('ok', 'err'): return None
+    if want[0] == 'err':
+        return None if r == ('err', want[1]) else 'expected Err(%s), got %s' % (want[1], str(r)[:80])
+    if r[0] != 'ok' or r[1][:1] != [1]: return 'expected a SAUCE record, got %s' % (str(r)[:80])
+    got = parse_sauce_obs(r[1])
+    if (got['header_len'], len(got['comments'])) != want[1:]:
+        return 'expected header_len %d with %d comments, got %d with %d' % (want[1], want[2], got['header_len'], len(got['comments']))
+    return None
+
 def impl_to_vec(r):
     """implementation result -> the model's observation convention"""
     if r is None: return None
@@ -431,6 +446,53 @@ def check_e2e(table, ext, m, r):
         return ('e2e-%s-picture' % ext, 'picture loaded from content+EOF+SAUCE differs from picture loaded from content alone')
     return None
 
+def check_wx(table, m, cs, r):
+    """write -> extract on the real code for metadata m: a failure record, or None"""
+    if m['font'] is None:
+        if r[0] != 'panic': return {'signature': 'write-without-font', 'input': cs, 'impl': str(r)[:300], 'detail': 'expected the documented unwrap panic'}
+        return None
+    exp = spec_carried(table, m)
+    too_wide = m['ft'] == 7 and (abs(m['w']) // 2) * (1 if m['w'] >= 0 else -1) > 255
+    if r[0] == 'err':
+        if r[1] == 'bin-width' and too_wide: return None
+        return {'signature': 'write-' + r[1].split(':')[0], 'input': cs, 'impl': str(r)[:300], 'detail': 'writer/reader failed on well-formed metadata'}
+    if r[0] != 'ok':
+        return {'signature': 'write-' + r[0], 'input': cs, 'impl': str(r)[:300], 'detail': 'writer/reader died on well-formed metadata'}
+    v = r[1]
+    if too_wide: return {'signature': 'bin-width-not-refused', 'input': cs, 'impl': str(v[:8]), 'detail': 'Bin cannot carry this width; the writer must refuse'}
+    keeps, n = v[0], v[1]
+    rest = v[2 + n:]
+    if not keeps: return {'signature': 'content-changed-by-writer', 'input': cs, 'impl': str(v[:8]), 'detail': 'the content is not a prefix of the written file'}
+    if rest[:1] != [1]: return {'signature': 'written-sauce-not-found', 'input': cs, 'impl': str(rest[:4]), 'detail': 'extract finds no SAUCE in the written file'}
+    got = parse_sauce_obs(rest)
+    bad = compare_carried(exp, got)
+    if n != exp['header_len']: bad.append('appended-length')
+    if got['header_len'] != n: bad.append('cut')
+    if bad:
+        sig = 'cut-inexact' if 'cut' in bad or 'header_len' in bad else 'roundtrip-' + bad[0]
+        return {'signature': sig, 'input': cs, 'impl': str(rest[:14]), 'expected': {k: exp[k] for k in bad if k in exp},
+                'detail': 'loaded values differ from what the variant carries: %s' % bad}
+    return None
+
+def parse_sauce_args(a):
+    if not a or a[0] == '0': return None
+    n = int(a[6])
+    return {'title': unhx(a[1]), 'author': unhx(a[2]), 'group': unhx(a[3]), 'ar': a[4] == '1', 'ls': a[5] == '1',
+            'comments': [unhx(x) for x in a[7:7 + n]]}
+
+def parse_font(f):
+    return None if f == '-' else '' if f == 'empty' else 'default' if f == 'default' else bytes(unhx(f)).decode('utf-8', 'replace')
+
+def parse_w_case(c):
+    a = c.split()
+    m = {'ft': int(a[1]), 'w': int(a[3]), 'h': int(a[4]), 'ice': a[5] == '1', 'font': parse_font(a[6]), 'sauce': parse_sauce_args(a[7:])}
+    return m, unhx(a[2])
+
+def parse_e2e_case(c):
+    a = c.split()
+    m = {'ft': EXT_FT[a[1]], 'w': int(a[2]), 'h': int(a[3]), 'ice': a[4] == '1', 'font': parse_font(a[5]), 'sauce': parse_sauce_args(a[8:])}
+    return a[1], m
+
 def search(ctx, broken):
     table = cp437(ctx.repo)
     failures = []
@@ -445,34 +507,10 @@ def search(ctx, broken):
     wimpl = ctx.impl(wcases)
     written = []
     for (m, c), cs, r in zip(metas, wcases, wimpl):
-        exp = spec_carried(table, m) if m['font'] is not None else None
-        if m['font'] is None:
-            if r[0] != 'panic': failures.append({'signature': 'write-without-font', 'input': cs, 'impl': str(r)[:300], 'detail': 'expected the documented unwrap panic'})
-            continue
-        if r[0] == 'err':
-            ok = (r[1] == 'bin-width' and m['ft'] == 7 and (abs(m['w']) // 2) * (1 if m['w'] >= 0 else -1) > 255)
-            if not ok: failures.append({'signature': 'write-' + r[1].split(':')[0], 'input': cs, 'impl': str(r)[:300], 'detail': 'writer/reader failed on well-formed metadata'})
-            continue
-        if r[0] != 'ok':
-            failures.append({'signature': 'write-' + r[0], 'input': cs, 'impl': str(r)[:300]}); continue
-        v = r[1]
-        if m['ft'] == 7 and m['w'] // 2 > 255 and m['w'] > 0:
-            failures.append({'signature': 'bin-width-not-refused', 'input': cs, 'impl': str(v[:8])}); continue
-        keeps, n = v[0], v[1]
-        tail = v[2:2 + n]; rest = v[2 + n:]
-        if not keeps:
-            failures.append({'signature': 'content-changed-by-writer', 'input': cs, 'impl': str(v[:8])}); continue
-        if rest[:1] != [1]:
-            failures.append({'signature': 'written-sauce-not-found', 'input': cs, 'impl': str(rest[:4])}); continue
-        got = parse_sauce_obs(rest)
-        bad = compare_carried(exp, got)
-        if n != exp['header_len']: bad.append('appended-length')
-        if got['header_len'] != n: bad.append('cut')
-        if bad:
-            sig = 'cut-inexact' if 'cut' in bad or 'header_len' in bad else 'roundtrip-' + bad[0]
-            failures.append({'signature': sig, 'input': cs, 'impl': str(rest[:14]), 'expected': {k: exp[k] for k in bad if k in exp},
-                             'detail': 'loaded values differ from what the variant carries: %s' % bad})
-        written.append((c + tail, len(c)))
+        f = check_wx(table, m, cs, r)
+        if f: failures.append(f)
+        elif r[0] == 'ok' and r[1][0] == 1:
+            written.append((c + r[1][2:2 + r[1][1]], len(c)))
     samples.append(wcases[0][:300])
     # 2. exact cut through the real Buffer::from_bytes (bin loader): loading the file == loading content with the extracted SAUCE
     small = [w for w in written if len(w[0]) < 3000][:ctx.n(400, 5000)]
@@ -486,7 +524,11 @@ def search(ctx, broken):
     xcases = ['x ' + hx(d) for _, d in rin] + ['split bin %d %s' % (len(d), hx(d)) for _, d in rin[:ctx.n(500, 5000)] if cheap_geometry(d)]
     if ctx.thorough or ctx.escalated or True:
         xcases += ['huge 1 0', 'huge 1 100', 'huge 3 150', 'huge 0 0']
-    for c, r in zip(xcases, ctx.impl(xcases, per_case_timeout=30, mem_mb=4096)):
+    ximpl = ctx.impl(xcases, per_case_timeout=30, mem_mb=4096)
+    for (lbl, d), r in zip(rin, ximpl):
+        msg = check_regression(lbl, r)
+        if msg: failures.append({'signature': 'regression-' + lbl, 'input': 'x ' + hx(d), 'impl': str(r)[:300], 'detail': msg})
+    for c, r in zip(xcases, ximpl):
         if r[0] not in ('ok', 'err') or (r[0] == 'err' and r[1].startswith('other')):
             failures.append({'signature': 'extract-' + r[0] if c[0] in 'xh' else 'from_bytes-' + r[0], 'input': c[:6000], 'impl': str(r),
                              'detail': 'the SAUCE reader must return None / Some / Err on every byte string'})
@@ -511,25 +553,51 @@ def search(ctx, broken):
             'samples': samples, 'e2e_outcomes': dict(sorted(cnt.items()))}
 
 def replay(ctx, body):
+    """re-run one recorded input on the implementation (and the model where there is one); exit code 0 = passes now"""
     from vlib import driver
     inp = body.get('input')
-    print('replay', ID, str(inp)[:300])
+    print('replay', ID, 'signature:', body.get('signature'), '\ninput:', str(inp)[:400])
     if not isinstance(inp, str):
         print(json.dumps(body, indent=1)[:3000]); return 1
     ok, out = driver.stage_build()
+    if not ok:
+        print('harness does not build'); return 2
     r = ctx.impl([inp], per_case_timeout=30, mem_mb=4096)[0]
-    print('implementation:', str(r)[:2000])
+    print('implementation:', str(r)[:1500])
     table = cp437(ctx.repo)
-    if inp.startswith('x '):
+    kind = inp.split()[0]
+    if kind == 'x':
         d = unhx(inp.split()[1])
-        m = ctx.model(IMPORTS, ['run_x %s' % coq_list(d)])
-        print('model:', str(m[0])[:2000])
-        good = r[0] in ('ok', 'err') and impl_to_vec(r) == model_vec(m[0])
+        m = ctx.model(IMPORTS, ['run_xs %s' % coq_list(d)])
+        print('model (split length, has sauce, extract observation):', str(m[0])[:1500])
+        good = r[0] in ('ok', 'err') and m[0] is not None and impl_to_vec(r) == model_vec(m[0][2:])
+        for lbl, dd in REGRESSION:
+            if dd == d and check_regression(lbl, r): print('oracle:', check_regression(lbl, r)); good = False
         return 0 if good else 1
-    if inp.startswith('split ') or inp.startswith('huge '):
-        return 0 if (r[0] == 'ok' and (inp.startswith('huge') or (r[1][0] == 1 and r[1][1] == 2))) else 1
-    print('signature recorded:', body.get('signature'), '-', body.get('detail'))
-    return 0 if r[0] == 'ok' and not body.get('signature') else 1
+    if kind in ('w', 'wx'):
+        m, c = parse_w_case(inp)
+        if kind == 'w':
+            mo = ctx.model(IMPORTS, ['run_w %d %s %s %s' % (m['ft'], coq_wbuf(m), coq_list(date_of_tail(r)), coq_list(c))])
+            print('model:', str(mo[0])[:1500])
+            return 0 if impl_to_vec(r) == model_vec(mo[0]) else 1
+        f = check_wx(table, m, inp, r)
+        print('oracle:', f['signature'] + ' - ' + str(f.get('detail')) if f else 'passes')
+        return 1 if f else 0
+    if kind == 'e2e':
+        ext, m = parse_e2e_case(inp)
+        f = check_e2e(table, ext, m, r)
+        print('oracle:', '%s - %s' % f if f else 'passes')
+        return 1 if f else 0
+    if kind == 'split':
+        good = r[0] == 'ok' and (r[1][:2] == [1, 2] or int(inp.split()[2]) == len(unhx(inp.split()[3])))
+        print('oracle:', 'passes' if good else 'from_bytes differs from the loader run on data[..k] / died')
+        return 0 if good else 1
+    if kind == 'huge':
+        n = int(inp.split()[1])
+        good = r == ('ok', [1, 129 + (5 + 64 * n if n else 0), n])
+        print('oracle:', 'passes' if good else 'wrong answer on a 2 GiB file')
+        return 0 if good else 1
+    return 1
 
 LEVEL_TEXT = ('Machine-checked proof (Coq, closed under the global context) about a model of SauceData::extract, Buffer::write_sauce_info, '
               'SauceString and the Buffer::from_bytes split that mirrors every slice, index, subtraction and assert of the Rust code: '
